@@ -52,6 +52,12 @@ StepEnc(e, sec, rx) ==
                  <<u.plain = e.plain, "a conformant receiver does not recover the submitted plain message">> >>),
             sec |-> nsec, rx |-> RxOf(nsec)]
 
+\* a send that is refused (no encoder for the message type, octets that are no NAS message): nothing goes out, no COUNT is consumed
+StepRefuse(e, sec, rx) ==
+   [r |-> FirstBad(<< <<e.err /\ ~e.panic, "a message that cannot be encoded was not refused with an error">>,
+                      <<e.ulAfter = e.ulBefore /\ e.ulBefore = sec.ul, "a refused send changed the uplink NAS COUNT (" \o Str(e.ulBefore) \o " -> " \o Str(e.ulAfter) \o ")">>,
+                      <<e.dlAfter = e.dlBefore, "a refused send changed the downlink NAS COUNT">> >>),
+    sec |-> sec, rx |-> rx]
 \* downlink: the PDU was produced by the specification's AMF (GenNasDl); the expectation is recomputed here
 StepDec(e, sec, rx) ==
    LET u == S!Unprotect(sec, IF e.hdr = 0 THEN [hdr |-> 0, body |-> e.pdu] ELSE Parse(e.pdu), S!DirDown)
@@ -89,6 +95,7 @@ Next == /\ l <= Len(Trace)
              ELSE LET s == IF e.ev = "Enc" THEN StepEnc(e, secs[c], rxs[c])
                            ELSE IF e.ev = "Dec" THEN StepDec(e, secs[c], rxs[c])
                            ELSE IF e.ev = "Count" THEN StepCount(e, secs[c], rxs[c])
+                           ELSE IF e.ev = "Refuse" THEN StepRefuse(e, secs[c], rxs[c])
                            ELSE IF e.ev = "Held" THEN [r |-> HeldVerdict(e), sec |-> secs[c], rx |-> rxs[c]]
                            ELSE [r |-> No("no action of the specification matches this event"), sec |-> secs[c], rx |-> rxs[c]]
                   IN /\ Report(l, e, s.r)
